@@ -28,10 +28,13 @@ const (
 	RunHangCancel             // runs until the cancel signal, then returns cancelled_early
 	RunHangIgnore             // runs until the connection is closed
 	RunSchemaMismatch         // the deployed plugin does not know the step
+	RunBadOutputID            // a plugin not built with the SDK answers with an output id its schema does not declare
+	RunBadOutputData          // ... or with data that does not fit the declared output
 )
 
 var RunKindNames = map[RunKind]string{RunSuccess: "success", RunErrorOut: "error-output", RunCrash: "crash",
-	RunHangCancel: "hang-until-cancel", RunHangIgnore: "hang-ignoring-cancel", RunSchemaMismatch: "schema-mismatch"}
+	RunHangCancel: "hang-until-cancel", RunHangIgnore: "hang-ignoring-cancel", RunSchemaMismatch: "schema-mismatch",
+	RunBadOutputID: "undeclared-output-id", RunBadOutputData: "ill-typed-output-data"}
 var DeployKindNames = map[DeployKind]string{DeployOK: "ok", DeployFail: "fail", DeployHang: "hang"}
 
 // StepScript is the scripted behaviour of one deployed plugin, keyed by its `src`.
